@@ -74,7 +74,10 @@ def build(f, rec):
     a2 = b.create_data_array("a2", "signal", data=np.arange(6.0).reshape(2, 3))
     a2.append_set_dimension(["x", "y"])
     a2.append_sampled_dimension(0.5, unit="ms" if u else None, offset=1.0 if u else None)
-    arrays = {"a1": a1, "a2": a2}
+    a2b = b.create_data_array("a2b", "signal", data=np.arange(6.0).reshape(2, 3) * 2)
+    a2b.append_set_dimension(["x", "y"])
+    a2b.append_sampled_dimension(0.25, unit="ms" if u else None)
+    arrays = {"a1": a1, "a2": a2, "a2b": a2b}
     if rec["rank3"]:
         a3 = b.create_data_array("a3", "signal", data=np.arange(12.0).reshape(2, 3, 2))
         a3.append_sampled_dimension(2.0, unit="s" if u else None)
@@ -89,6 +92,7 @@ def build(f, rec):
     t2.extent = [1.0, 0.5]
     t2.units = ["", "s" if u else ""]
     t2.references.append(a2)
+    t2.references.append(a2b)
     pos = b.create_data_array("pos", "positions", data=np.array([[0.0, 1.0], [1.0, 1.5]]))
     pos.append_set_dimension()
     pos.append_set_dimension()
@@ -98,6 +102,7 @@ def build(f, rec):
     mt = b.create_multi_tag("mt", "mtagtype", pos)
     mt.extents = ext
     mt.units = ["", "ms" if u else ""]
+    mt.references.append(a2b)
     mt.references.append(a2)
     tags = {"t1": t1, "t2": t2}
     if rec["rank3"]:
@@ -313,6 +318,27 @@ def _i15(ctx, rec):
     return out
 
 
+@inj("unit-with-power-vs-plain", "tagunits", ["units-incompatible"])
+def _i15b(ctx, rec):
+    out = []
+    if rec["units"]:
+        out.append((("tag", "t1"), (lambda ctx: setattr(ctx["tags"]["t1"], "units", ["ms^2"])), []))
+        out.append((("tag", "t2"), (lambda ctx: setattr(ctx["tags"]["t2"], "units", ["", "s^-1"])), []))
+    return out
+
+
+@inj("reference-dimension-unit-unconvertible", "refunit", ["units-incompatible"])
+def _i15c(ctx, rec):
+    """a valid SI unit on ONE referenced array's dimension that cannot be converted to the tag's unit; the tag must report it"""
+    out = []
+    if rec["units"]:
+        for akey in ("a2", "a2b"):
+            rel = [("array", akey)] + refs_of(ctx, akey)
+            out.append((("tag", "t2"), (lambda ctx, akey=akey: setattr(ctx["arrays"][akey].dimensions[1], "unit", "V")), rel))
+            out.append((("mt", None), (lambda ctx, akey=akey: setattr(ctx["arrays"][akey].dimensions[1], "unit", "kV")), rel))
+    return out
+
+
 @inj("positions-dimension-mismatch", "positions", ["positions-dim-mismatch"])
 def _i16(ctx, rec):
     def ap(ctx):
@@ -441,7 +467,10 @@ def run_case(case):
             slots.add(slot)
             target = resolve(ctx, key)
             tid = target.id
-            ap(ctx)
+            try:
+                ap(ctx)
+            except (IndexError, KeyError):
+                return r        # the first injection removed what the second one needs: the pair does not compose
             applied.append((tid, I, [resolve(ctx, k_).id for k_ in related], key))
         if applied:
             r.nontrivial = 1
